@@ -233,8 +233,16 @@ def run_query_case(case):
                 pass
             except Exception as e:
                 rec["exc"] = exc_name(e)
-        for kind in {"none": [], "query": ["q"], "rule": ["r"], "nested": ["q", "r"]}[ev.get("ambient", "none")]:
-            cm = _sm() if kind == "q" else _rm()
+        for kind in {"none": [], "query": ["q"], "rule": ["r"], "nested": ["q", "r"], "symq": ["sq"], "ruleq": ["rq"],
+                     "withq": ["wq"]}[ev.get("ambient", "none")]:
+            if kind in ("sq", "rq", "wq"):      # blocks that also enter a query (expression context pushed)
+                from entity_query_language import let as _let, an as _an, entity as _entity
+                cv = _let(world.A, domain=[world.A(n=1)])
+                with _sm():
+                    ctxq = _an(_entity(cv, cv.n >= 0))
+                cm = _sm(ctxq) if kind == "sq" else (_rm(ctxq) if kind == "rq" else ctxq)
+            else:
+                cm = _sm() if kind == "q" else _rm()
             cm.__enter__()
             ambient.append(cm)
         try:
@@ -319,7 +327,8 @@ def run_index_case(case):
     out["evs"] = []
     for op in case["ops"]:
         if op["op"] == "insert":
-            cache.insert(_b2d(op["b"]), op["o"])
+            # the stored output is o - 1, so that output 1 is stored as the falsy value 0 (operator caches store booleans)
+            cache.insert(_b2d(op["b"]), op["o"] - 1)
             out["evs"].append({"op": "insert", "b": op["b"], "o": op["o"]})
         else:
             cache.clear()
@@ -327,7 +336,7 @@ def run_index_case(case):
         for lk in case["lookups"]:
             if any(lk):
                 out["evs"].append({"op": "check", "lk": lk, "res": bool(cache.check(_b2d(lk)))})
-            res = [[_d2b(r, nkeys), v] for r, v in cache.retrieve(_b2d(lk))]
+            res = [[_d2b(r, nkeys), v + 1] for r, v in cache.retrieve(_b2d(lk))]
             out["evs"].append({"op": "retrieve", "lk": lk, "res": res})
     del out["ops"], out["lookups"]
     return out
@@ -480,6 +489,7 @@ def run_registry_case(case):
     keep = []
     counter = [0]
     inits = [0]
+    declared = []
     orig_init = world.Leaf.__init__
 
     def counting_init(self, n=0, m=0):
@@ -531,6 +541,13 @@ def run_registry_case(case):
                     for c in list(Variable._cache_.values()):
                         c.clear()
                     Variable._cache_.clear()
+                elif op == "declare":
+                    declared.append(let(world.CLASSES[ev["T"]]))
+                elif op == "evalvar":
+                    v = declared[ev["n"] - 1]
+                    with symbolic_mode():
+                        q = an(entity(v))
+                    rec["res"] = [log.get(id(o), -1) for o in q.evaluate()]
                 elif op == "query":
                     cls = world.CLASSES[ev["T"]]
                     v = let(cls)
